@@ -187,7 +187,40 @@ func c01FTM(vals []time.Duration) (lo, hi time.Duration) {
 	return s[f], s[len(s)-1-f]
 }
 
+// c01Classification: the clauses about the reference-clock and the peer contribution
+// presuppose that a configured peer reaches the loop as a peer. The wiring decides that.
+func c01Classification(r *simcore.Run) {
+	if Root.ClassifySources == nil {
+		return
+	}
+	tp := r.Tape
+	var refs, peers []string
+	for i := 0; i < tp.Intn(4, "nref-ip"); i++ {
+		refs = append(refs, fmt.Sprintf("0-0,10.1.%d.1:123", i))
+	}
+	nIP := len(refs)
+	for i := 0; i < tp.Intn(3, "nref-scion"); i++ {
+		refs = append(refs, fmt.Sprintf("1-ff00:0:11%d,10.2.%d.1:10123", i, i))
+	}
+	for i := 0; i < tp.Intn(4, "npeer"); i++ {
+		peers = append(peers, fmt.Sprintf("1-ff00:0:12%d,10.3.%d.1:10123", i, i))
+	}
+	_ = nIP
+	nref, npeer := Root.ClassifySources(refs, peers, "1-ff00:0:110,10.0.0.2:0")
+	if nref != len(refs) || npeer != len(peers) {
+		r.Fail("C01", "wiring/source-classification", "%d reference clocks and %d peers configured, the loop gets %d reference clocks and %d peers", len(refs), len(peers), nref, npeer)
+		return
+	}
+	r.Probe("sources-classified-by-the-wiring")
+}
+
 func c01World(t *testing.T, r *simcore.Run) any {
+	if r.Index%8 == 6 {
+		c01Classification(r)
+		if r.Violation() != nil {
+			return nil
+		}
+	}
 	if r.Index%8 == 7 && Root.DefaultSyncConfig != nil && Root.NewNTPReferenceClockIP != nil {
 		return c01WiredWorld(r) // the real wiring of timeservice.go against real listeners
 	}
